@@ -1,0 +1,24 @@
+//! Verification hooks, compiled only with `--cfg xet_verif` (never in normal builds).
+//!
+//! `point(name)` marks a schedule / crash point in the code.  It calls a process-global callback
+//! if one is installed and does nothing otherwise.  The callback may block (to drive a particular
+//! interleaving), abort the process (to simulate a crash at that point) or record the event.
+use std::sync::{Arc, RwLock};
+
+pub type Callback = Arc<dyn Fn(&'static str) + Send + Sync>;
+
+static CALLBACK: RwLock<Option<Callback>> = RwLock::new(None);
+
+/// Installs (or with `None` removes) the process-global callback.
+pub fn set_callback(cb: Option<Callback>) {
+    *CALLBACK.write().unwrap() = cb;
+}
+
+/// A named schedule / crash point.
+#[inline]
+pub fn point(name: &'static str) {
+    let cb = CALLBACK.read().unwrap().clone();
+    if let Some(cb) = cb {
+        cb(name)
+    }
+}
